@@ -170,8 +170,21 @@ class StmtMixin:
         if isinstance(st.value, ast.Yield):
             raise Unsupported("yield used as expression")
         v = self.ev(st.value, env)
+        v = self._typed_empty_for_local(st.targets, v)
         for t in st.targets:
             self.assign(t, v, env)
+
+    def _typed_empty_for_local(self, targets, v):
+        """`x = set()` for a local whose kind the contract declares: the empty set of that kind
+        (an untyped empty set would take its key sort from the first element added)."""
+        if (len(targets) == 1 and isinstance(targets[0], ast.Name) and isinstance(v, VRef) and v.addr in self.untyped_empty
+                and self.frames):
+            kind = self.frames[-1].local_kind(targets[0].id)
+            if kind is not None and kind.startswith("set["):
+                tmpl = vals.fresh(kind, "tmpl")
+                self.untyped_empty.discard(v.addr)
+                self.path.heap[v.addr].val = VSet(tmpl.key, z3.K(tmpl.key.leaves()[0].sort(), z3.BoolVal(False)))
+        return v
 
     def ex_AnnAssign(self, st, env):
         if st.value is not None:
